@@ -20,11 +20,11 @@ import pandas as pd
 
 from common import rq, enc_list, dec_list
 
-REQUIRED = ['hist_length', 'sample_individuals', 'no_record_after_stop', 'last_record_terminal',
+REQUIRED = ['hist_length', 'sample_individuals', 'no_record_after_stop', 'record_01', 'last_record_terminal',
             'at_most_one_event', 'event_is_last', 'times_consecutive', 'within_tmax', 'censored_outcome_zero',
             'plan_all', 'plan_none', 'plan_natural', 'plan_custom', 'plan_custom_on_record',
             'lag_first_step', 'lag_prev_step', 'lag_prev_record', 'lowmem_one', 'lowmem_eq_last_of_full',
-            'lowmem_uids', 'fit_rejects_iff']
+            'lowmem_uids', 'fit_rejects_iff', 'lag_chain_forward_counterexample']
 RULE = ('person-period data sets generated here (id, t_in/t_out, binary time-varying L, L2, continuous W, exposure A, '
         'outcome Y, drop-out, lag columns, optional integer weights); nuisance models fitted by zEpid itself; every '
         'cell of plan {all, none, natural, custom rule from the Cond grammar} x covariate models {none, L, L+W '
@@ -678,7 +678,8 @@ def random_spec(rng, plan, covs, cens, lagset, tier, i):
     spec = dict(data_seed=int(rng.integers(0, 6 if tier == 'quick' else 40)), n=int(rng.choice([150, 220])), T=4,
                 weights=bool(rng.uniform() < 0.25), covs=covs, cens=bool(cens), plan=plan,
                 lags=LAGSETS[lagset], lagset=lagset,
-                sample=int(rng.choice([1, 2, 3, int(rng.integers(4, 40)), int(rng.integers(40, 201))])),
+                sample=int(rng.choice([1, int(rng.integers(2, 4)), int(rng.integers(4, 40)), int(rng.integers(40, 201))],
+                                      p=[0.1, 0.1, 0.3, 0.5])),
                 tmax=[None, 1, 2, 3, 4, 5, 6][int(rng.integers(0, 7))], np_seed=int(rng.integers(0, 2 ** 31 - 1)),
                 pin=int(rng.integers(0, 2 ** 31 - 1)) if rng.uniform() < 0.5 else None)
     rc = dict(RECODES[int(rng.integers(0, len(RECODES)))])
